@@ -49,6 +49,9 @@ type stepDesc struct {
 	Err     errDesc `json:"err"`
 	Flavour int     `json:"flavour"`
 	Site    int     `json:"site,omitempty"` // >= 36: one of the exotic call sites, used as is
+	// FactoryOf: the result of this step is turned into a factory (gerror.FactoryOf) before the
+	// chain continues from it ("a factory cloned from another"); the accessors must not change.
+	FactoryOf bool `json:"factory_of,omitempty"`
 	// recorded, not inputs:
 	Rendered string `json:"rendered,omitempty"` // fmt.Sprintf(format, elems...)
 	Orig     string `json:"orig,omitempty"`     // fmt.Sprintf("originalError: %+v", err)
@@ -199,6 +202,14 @@ func runChain(f gerror.Factory, steps []stepDesc) (obs []viewJ, pan string) {
 		e := sites[siteID(k, s)].fn(cur, methodIndex(s.M), a)
 		obs = append(obs, viewOf(e))
 		cur = e.(gerror.Factory)
+		if s.FactoryOf {
+			if g, ok := e.(*gerror.GError); ok {
+				cur = gerror.FactoryOf(g)
+				if v := viewOf(cur.(gerror.Error)); v != obs[len(obs)-1] {
+					panic("FactoryOf changed the accessor values")
+				}
+			}
+		}
 	}
 	return obs, ""
 }
@@ -479,6 +490,71 @@ func corpus(out *gal.Out) {
 	emit(out, "corpus", full, nil)
 }
 
+// shapes: the deterministic families a regression would most plausibly break.
+func shapes(out *gal.Out) {
+	none := errDesc{Kind: "none"}
+	plain := facDesc{Name: "ErrShape", Msg: "base", IsFac: true}
+	empty := facDesc{Name: "ErrShape", IsFac: true}
+	one := func(m, src, dtag, format string, es ...elem) stepDesc {
+		return stepDesc{M: m, Src: src, DTag: dtag, Format: format, Elems: es, Err: none}
+	}
+	// 1. white-space-only and Unicode-white-space extensions, one code point at a time
+	// (all 25 code points of unicode.IsSpace)
+	allSpaces := []rune{'\t', '\n', '\v', '\f', '\r', ' ', 0x85, 0xA0, 0x1680, 0x2028, 0x2029, 0x202F, 0x205F, 0x3000}
+	for c := rune(0x2000); c <= 0x200A; c++ {
+		allSpaces = append(allSpaces, c)
+	}
+	for _, c := range allSpaces {
+		s := string(c)
+		for _, f := range []facDesc{plain, empty, {Name: "ErrShape", Msg: s, IsFac: true}} {
+			emit(out, "shape/blank", f, []stepDesc{one("Msg", "", "", s)})
+			emit(out, "shape/blank", f, []stepDesc{one("Msg", "", "", s+s+"\t"), one("MsgS", "", "", "kept"+s+"inner"), one("Msg", "", "", s)})
+			emit(out, "shape/blank", f, []stepDesc{one("SrcDTagMsg", "src", "t", s+"x"+s)})
+		}
+	}
+	for _, c := range nearSpaces { // not white space: must be kept, also at the edges
+		s := string(c)
+		emit(out, "shape/nearblank", empty, []stepDesc{one("Msg", "", "", s), one("Msg", "", "", " "+s+" ")})
+	}
+	// 2. format verbs inside tags, sources and the base message are text, inside messages operands apply
+	verbFac := facDesc{Name: "Err%d", Msg: "100% of %s", Src: "", IsFac: true}
+	for _, v := range verbs {
+		emit(out, "shape/verbs", verbFac, []stepDesc{one("DTag", "", v, ""), one("Src", "src"+v, "", ""),
+			one("DTagMsg", "", v+"-"+v, "m "+v, elem{"int", "7"}), one("SrcDTagMsgS", v, v, v),
+			one("Msg", "", "", v+" "+v, elem{"string", "op"}, elem{"int", "3"}, elem{"nil", ""})})
+	}
+	// 3. empty detail tag / source arguments change nothing
+	for _, f := range []facDesc{plain, {Name: "ErrShape", Msg: "base", Src: "preset", IsFac: true}} {
+		emit(out, "shape/empty", f, []stepDesc{one("DTag", "", "", ""), one("Src", "", "", ""), one("SrcDTag", "", "", ""),
+			one("SrcDTagMsg", "", "", ""), one("DTag", "", "t", ""), one("DTagS", "", "", ""), one("SrcS", "", "", ""),
+			one("DTag", "", "u", "")})
+	}
+	// 4. Src twice (and every pair of source-carrying methods): the first one wins
+	srcMethods := []string{"Src", "SrcDTag", "SrcMsg", "SrcDTagMsg", "SrcS", "SrcDTagS", "SrcMsgS", "SrcDTagMsgS"}
+	for _, m1 := range srcMethods {
+		for _, m2 := range srcMethods {
+			emit(out, "shape/srctwice", plain, []stepDesc{one(m1, "first", "a", "x"), one(m2, "second", "b", "y")})
+			emit(out, "shape/srctwice", plain, []stepDesc{one("SourceOnly", "", "", ""), one(m1, "late", "", ""), one(m2, "later", "", "")})
+			emit(out, "shape/srctwice", plain, []stepDesc{one("Base", "", "", ""), one(m1, "", "", ""), one(m2, "explicit", "", "")})
+		}
+	}
+	// 5. a stack-taking method followed by Base (and by everything else): the stack persists
+	for _, m1 := range []string{"Stack", "SrcS", "DTagS", "MsgS", "SrcDTagMsgS", "SrcDTagS", "SrcMsgS", "DTagMsgS", "ConvertS"} {
+		for _, m2 := range MethodNames {
+			s1 := stepDesc{M: m1, Src: "s", DTag: "t", Format: "f", Err: errDesc{Kind: "new", Msg: "e"}, Flavour: 1}
+			s2 := stepDesc{M: m2, Src: "s2", DTag: "t2", Format: "f2", Err: errDesc{Kind: "ptr", Msg: "e2"}, Flavour: 2}
+			emit(out, "shape/stackthen", empty, []stepDesc{s1, one("Base", "", "", ""), s2, one("Base", "", "", "")})
+		}
+	}
+	// 6. a factory cloned from another factory: FactoryOf on a derived error, then further derivations
+	for _, m1 := range MethodNames {
+		s1 := stepDesc{M: m1, Src: "parent:src", DTag: "p", Format: " parent ", Err: errDesc{Kind: "new", Msg: "e"}, FactoryOf: true}
+		s2 := stepDesc{M: "SrcDTagMsgS", Src: "child:src", DTag: "c", Format: "child", Err: none, FactoryOf: true}
+		emit(out, "shape/subfactory", plain, []stepDesc{s1, s2, one("Msg", "", "", "leaf"), one("Base", "", "", "")})
+		emit(out, "shape/subfactory", facDesc{Name: "ErrBare"}, []stepDesc{s1, one("Stack", "", "", ""), s2})
+	}
+}
+
 // ---------------------------------------------------------------- concurrency
 
 type concResult struct {
@@ -573,7 +649,7 @@ func conc(r *rand.Rand, out *gal.Out, n, rounds int, prefix string) {
 func main() {
 	seed := flag.Uint64("seed", 1, "PRNG seed")
 	prefix := flag.String("out", "c15", "output prefix")
-	mode := flag.String("mode", "random", "corpus|random|nearmiss|sweep|exotic|replay|conc")
+	mode := flag.String("mode", "random", "corpus|random|nearmiss|sweep|shapes|exotic|replay|conc")
 	n := flag.Int("n", 300, "number of cases")
 	rounds := flag.Int("rounds", 3, "conc: how often every goroutine runs every chain")
 	in := flag.String("in", "", "replay: JSON file with a list of {fac, steps}")
@@ -611,6 +687,8 @@ func main() {
 				}
 			}
 		}
+	case "shapes":
+		shapes(out)
 	case "exotic":
 		// less usual frame-name shapes: one step from a source-less factory
 		for id := firstExotic; id < len(sites); id++ {
